@@ -221,6 +221,7 @@ struct Known {
     witness: String,
     /// 'R' or 'C'
     witness_kind: char,
+    other_witnesses: Vec<String>,
 }
 
 impl Known {
@@ -269,6 +270,7 @@ fn load_known(rep: &Report) -> Vec<Known> {
             apis: e["apis"].as_array().map(|a| a.iter().filter_map(|x| x.as_str().map(|s| s.to_string())).collect()).unwrap_or_default(),
             witness: e["witness"].as_str().unwrap_or("").to_string(),
             witness_kind: e["witness_kind"].as_str().and_then(|s| s.chars().next()).unwrap_or('R'),
+            other_witnesses: e["other_witnesses"].as_array().map(|a| a.iter().filter_map(|x| x.as_str().map(|s| s.to_string())).collect()).unwrap_or_default(),
         });
     }
     out
